@@ -122,6 +122,7 @@ ImplLaw ==
         /\ hc[i] # "bad"
 \* the table itself: offsets tile the serialization, sizes agree with the layout
 TruthLaw ==
+    calls = <<>> =>
     LET t == Truth(blk) IN
     /\ SeqSize(t.full) = BlockSize(t.value, "witness")
     /\ SeqSize(t.stripped) = BlockSize(t.value, "base")
